@@ -68,7 +68,7 @@ def universe_worker(job):
                 res.append((rc, e1.tree_canon(os.path.join(R.d, rp[0])) if rc == 0 and rp else None, collect_ids(R.d)))
                 ids.extend(('ref', p, b, c) for p, b, c in res[-1][2])
                 shutil.rmtree(os.path.dirname(R.d), ignore_errors=True)
-            if len(res) == 2 and sorted((p, b) for p, b, c in res[0][2]) != sorted((p, b) for p, b, c in res[1][2]):
+            if len(res) == 2 and res[0][0] == 0 and res[1][0] == 0 and sorted((p, b) for p, b, c in res[0][2]) != sorted((p, b) for p, b, c in res[1][2]):
                 viol.append(('build-id-depends-on-location', 'two local builds of the base state at different paths get different Build-Ids'))
             refcache[key] = res[0]
         return refcache[key]
